@@ -74,7 +74,7 @@ func (r *Runner) RunHistory(histNo int, o HistOpts) error {
 				insertOnly = false
 			}
 		}
-		if r.Cfg.Quantised && !r.Cfg.Mem {
+		if !r.Cfg.Mem {
 			// which keys hold the vectors now (Quant.tla), before anything reads them back
 			r.VecKeysProj()
 		}
